@@ -1,4 +1,5 @@
 import GridVerif.Props.C16
+import GridVerif.Props.C16.Laplacian
 
 #print axioms GridVerif.C16.posed_bvp_eq
 #print axioms GridVerif.C16.posed_ivp_eq
@@ -14,6 +15,7 @@ import GridVerif.Props.C16
 #print axioms GridVerif.C16.linear_combination_solves
 #print axioms GridVerif.C16.linear_in_density
 #print axioms GridVerif.C16.bvp_unique_monopole
+#print axioms GridVerif.C16.bvp_unique_higher
 #print axioms GridVerif.C16.bvp_solution_example
 #print axioms GridVerif.C16.robust_fold
 #print axioms GridVerif.C16.core_term_is_c17_density
@@ -24,3 +26,12 @@ import GridVerif.Props.C16
 #print axioms GridVerif.C16.s_reference
 #print axioms GridVerif.C16.problems_count
 #print axioms GridVerif.C16.call_shapes
+#print axioms GridVerif.C16.lap_gen_eq
+#print axioms GridVerif.C16.laplacianAt_eq
+#print axioms GridVerif.C16.laplacian_expansion
+#print axioms GridVerif.C16.lap_degrees_spec
+#print axioms GridVerif.C16.laplacian_expansion_code
+#print axioms GridVerif.C16.laplacian_of_potential
+#print axioms GridVerif.C16.lap_fanout_eq
+#print axioms GridVerif.C16.lap_molecular_slice_full
+#print axioms GridVerif.zero_of_second_deriv_eq_pos_mul
